@@ -9,6 +9,7 @@ import (
 	"fmt"
 	"os"
 	"testing"
+	"time"
 
 	"github.com/hujm2023/go-sms-protocol/cmpp"
 	"github.com/hujm2023/go-sms-protocol/cmpp/cmpp20"
@@ -230,7 +231,46 @@ func checkCtor(c CtorCase) *vk.Violation {
 	return nil
 }
 
+type ClockCase struct {
+	StartUnix int64 `json:"start_unix"`
+	StartNs   int64 `json:"start_ns"`
+	StepMs    int64 `json:"step_ms"` // the clock advances by this much on every reading
+}
+
+// checkClock: GenConnectTimestamp returns the timestamp as text and as number; whatever the clock does
+// between its readings, the two must denote the same MMDDHHMMSS value (the digest is computed over the
+// text, the PDU carries the number), and with a constant clock they must be that instant's MMDDHHMMSS.
+func checkClock(c ClockCase) *vk.Violation {
+	n := int64(0)
+	clock := func() time.Time {
+		t := time.Unix(c.StartUnix, c.StartNs).Add(time.Duration(n*c.StepMs) * time.Millisecond).UTC()
+		n++
+		return t
+	}
+	var str string
+	var num uint32
+	if pn := vk.Guarded("clock", "GenConnectTimestamp/hang", func() any { return c }, func() { str, num = cmpp.GenConnectTimestamp(clock) }); pn != "" {
+		return vk.Violf("GenConnectTimestamp/panic", c, "panic\n%s", pn)
+	}
+	if str != fmt.Sprintf("%010d", num) {
+		return vk.Violf("GenConnectTimestamp/text-and-number-differ", c, "GenConnectTimestamp returned text %q and number %d: the authenticator is computed over the text, the PDU carries the number, the peer's recomputation fails", str, num)
+	}
+	if c.StepMs == 0 {
+		t := time.Unix(c.StartUnix, c.StartNs).UTC()
+		want := fmt.Sprintf("%02d%02d%02d%02d%02d", int(t.Month()), t.Day(), t.Hour(), t.Minute(), t.Second())
+		if str != want {
+			return vk.Violf("GenConnectTimestamp/value", c, "GenConnectTimestamp at %s returned %q, want %q", t.Format(time.RFC3339), str, want)
+		}
+	}
+	return nil
+}
+
 var reg = vk.Registry{
+	"clock": func(raw json.RawMessage) *vk.Violation {
+		var c ClockCase
+		_ = json.Unmarshal(raw, &c)
+		return checkClock(c)
+	},
 	"auth": func(raw json.RawMessage) *vk.Violation { var c Case; _ = json.Unmarshal(raw, &c); return check(c) },
 	"ctor": func(raw json.RawMessage) *vk.Violation {
 		var c CtorCase
@@ -308,5 +348,26 @@ func TestConstructors(t *testing.T) {
 		rec.Eval()
 		rec.Class("constructor:" + c.Which)
 		rec.Report(t, "ctor", checkCtor(c))
+	})
+}
+
+func TestTimestampClock(t *testing.T) {
+	rapid.Check(t, func(t *rapid.T) {
+		c := ClockCase{StartUnix: rapid.Int64Range(946684800, 4102444799).Draw(t, "start"),
+			StartNs: rapid.SampledFrom([]int64{0, 1, 400_000_000, 600_000_000, 999_999_999}).Draw(t, "ns"),
+			StepMs:  rapid.SampledFrom([]int64{0, 0, 1, 400, 600, 1000, 61_000, 3_600_000}).Draw(t, "step")}
+		if rapid.Bool().Draw(t, "nearrollover") {
+			// just before a minute / day / month / year boundary
+			y := rapid.IntRange(2000, 2099).Draw(t, "year")
+			edges := []time.Time{time.Date(y, 12, 31, 23, 59, 59, 0, time.UTC), time.Date(y, 2, 28, 23, 59, 59, 0, time.UTC),
+				time.Date(y, rapid.SampledFrom([]time.Month{1, 4, 9, 10}).Draw(t, "m"), 30, 23, 59, 59, 0, time.UTC), time.Date(y, 6, 15, 11, 59, 59, 0, time.UTC)}
+			c.StartUnix = edges[rapid.IntRange(0, len(edges)-1).Draw(t, "edge")].Unix()
+		}
+		rec.Eval()
+		if c.StepMs > 0 {
+			rec.NonTrivial("clock", c.StartUnix, c.StartNs, c.StepMs)
+			rec.Class("running_clock")
+		}
+		rec.Report(t, "clock", checkClock(c))
 	})
 }
